@@ -1215,7 +1215,11 @@ func (se *symExec) eval(e ast.Expr, st *sstate) []ev {
 			if v, ok := st.vars[obj]; ok {
 				return one(st, se.symInt(e, v))
 			}
-			v := unk(x.Name)
+			nm := x.Name
+			if p, ok := se.params[obj]; ok && se.tableMode {
+				nm = p // the canonical name of a parameter, receiver or alias
+			}
+			v := unk(nm)
 			v.nn = se.singleton(obj)
 			return one(st, se.symInt(e, v))
 		}
